@@ -121,6 +121,9 @@ func init() {
 			if sizes || g.r.chance(1, 2) {
 				g.assignProps(t, "align", alignVals)
 			}
+			if g.r.chance(1, 5) {
+				g.assignPropsAtRender(t, "align", []string{"a1", "a2", "a3"})
+			}
 			var w string
 			if len(g.mid[t]) > 0 {
 				w = g.mid[t][0]
@@ -249,7 +252,11 @@ func init() {
 			} else {
 				t = g.buildTable(o)
 			}
+			g.reattach(t, 1, 8)
 			g.assignProps(t, "skip", skipVals)
+			if g.r.chance(1, 6) {
+				g.assignPropsAtRender(t, "skip", []string{"b0", "b1"})
+			}
 			if g.r.chance(1, 12) {
 				g.do(fmt.Sprintf("setprop c:%d:%d skip u5", idOf(t), g.r.n(g.ncols(t)+1)))
 			}
@@ -273,7 +280,11 @@ func init() {
 				o.headerMode = 1
 			}
 			t := g.buildTable(o)
+			g.reattach(t, 1, 8)
 			g.assignProps(t, "align", alignVals)
+			if g.r.chance(1, 5) {
+				g.assignPropsAtRender(t, "align", []string{"a1", "a2", "a3"})
+			}
 			w := g.do("wrap markdown " + t)
 			res := g.do("render " + w)
 			viol := oracleMD(g, t, res)
@@ -302,6 +313,28 @@ func init() {
 				o.alpha, o.maxCols, o.maxRows, o.sizeEvery = alphaTextLines, 2, 3, 2
 			}
 			t := g.buildTable(o)
+			if c%5 == 2 {
+				// the column count crosses the column list's initial capacity (10) in one step or cell by cell
+				var ids []string
+				for j := 0; j < 9+g.r.n(5); j++ {
+					ids = append(ids, g.strItem("w"))
+				}
+				switch g.r.n(3) {
+				case 0:
+					g.do("addrowitems " + t + " " + joinC(ids))
+				case 1:
+					nr := g.do("appendnewrow " + t)
+					for _, id := range ids {
+						g.do("rowadd " + nr + " " + id)
+					}
+				default:
+					if g.x.tables[idOf(t)].Headers() == nil {
+						g.do("addheaders " + t + " " + joinC(ids))
+					} else {
+						g.do("addrowitems " + t + " " + joinC(ids))
+					}
+				}
+			}
 			if hostileSizes || g.r.chance(1, 3) {
 				g.assignProps(t, "align", alignVals)
 			}
@@ -424,6 +457,7 @@ func init() {
 				userDecor = r.pick([]string{"Boxy", "MyStyle", "ASCII-Simple", "light\xc4", "Utf8-Heavy", "K"})
 				g.do("register " + hx(userDecor) + " " + g.customDecor())
 			}
+			refOut := map[string]string{}
 			kept := map[string]string{} // (format, ref) -> the wrapper used in round 0, reused after the change
 			for round := 0; round < 2; round++ {
 				if round == 1 {
@@ -498,6 +532,15 @@ func init() {
 						cl, f = parseRes(res)
 						cmp("auto.Render("+style+") via "+ref, cl, f["str"])
 						cmp("auto.RenderTo("+style+") via "+ref, f["res2"], f["out2"])
+						if ref[0] == 'W' {
+							// the wrapper that was handed in is no different for having been wrapped or rendered through
+							out := g.do("render " + ref)
+							rk := fmt.Sprintf("%d/%s", round, ref)
+							if prev, ok := refOut[rk]; ok && prev != out {
+								viol = append(viol, fmt.Sprintf("wrapper %s renders differently after being passed to format %s paths", ref, k))
+							}
+							refOut[rk] = out
+						}
 					}
 				}
 			}
